@@ -64,12 +64,21 @@ func (p *parser) tag(closing bool, name string, attrs [][2]string) *ev.Violation
 	if len(t.Attrs) != len(attrs) {
 		return ev.V("<%s> has attributes %v, expected %v", name, t.Attrs, attrs)
 	}
-	for i := range attrs {
-		if t.Attrs[i][0] != attrs[i][0] {
-			return ev.V("<%s> attribute %d is %q, expected %q", name, i, t.Attrs[i][0], attrs[i][0])
+	// the same set of attributes, in whatever order
+	have := map[string]string{}
+	for _, a := range t.Attrs {
+		if _, dup := have[a[0]]; dup {
+			return ev.V("<%s> repeats attribute %q", name, a[0])
 		}
-		if got := stdhtml.UnescapeString(t.Attrs[i][1]); got != attrs[i][1] {
-			return ev.V("<%s %s> decodes to %q, supplied %q (raw %q)", name, attrs[i][0], got, attrs[i][1], t.Attrs[i][1])
+		have[a[0]] = a[1]
+	}
+	for _, a := range attrs {
+		raw, ok := have[a[0]]
+		if !ok {
+			return ev.V("<%s> lacks attribute %q (has %v)", name, a[0], t.Attrs)
+		}
+		if got := stdhtml.UnescapeString(raw); got != a[1] {
+			return ev.V("<%s %s> decodes to %q, supplied %q (raw %q)", name, a[0], got, a[1], raw)
 		}
 	}
 	p.pos++
